@@ -165,6 +165,6 @@ def strat_perms(ctx: Ctx):
 
 PARTS: list[Part] = [
     custom_part("exhaustive", drive_exhaustive, check_program, {"quick": 12, "thorough": 16}),
-    hyp_part("permutations", strat_perms, check_program, {"quick": 12, "thorough": 70},
+    hyp_part("permutations", strat_perms, check_program, {"quick": 12, "thorough": 250},
              {"quick": 4, "thorough": 16}, shrink=False),
 ]
